@@ -5,6 +5,7 @@ Writes a JSON result; exit code is always 0 unless the shard itself crashed.
 """
 import importlib
 import json
+import os
 import sys
 import time
 import traceback
@@ -34,10 +35,15 @@ def main(argv):
     cover = {}
     t0 = time.time()
 
+    stop_flag = os.path.join(os.path.dirname(os.path.abspath(outfile)), "STOP")
+
     def body(case):
         cj = json.dumps(case, sort_keys=True)
+        stop = os.path.exists(stop_flag)        # another shard already delivered a shrunk violation
+        if stop and not st["failed"]:
+            return
         if st["failed"]:
-            if st["after_fail"] >= SHRINK_BUDGET and cj != st["best_json"]:
+            if (stop or st["after_fail"] >= SHRINK_BUDGET) and cj != st["best_json"]:
                 return
             st["after_fail"] += 1
         if res["infra"] is not None:
@@ -92,6 +98,10 @@ def main(argv):
     if st["best"] is not None:
         res["violation"] = st["best"]
         res["shrink_runs"] = st["after_fail"]
+        try:
+            open(stop_flag, "w").close()
+        except OSError:
+            pass
     res["nontrivial_fps"] = sorted(fps)
     res["cover"] = {k: sorted(v) for k, v in cover.items()}
     res["wall_s"] = round(time.time() - t0, 2)
